@@ -150,53 +150,10 @@ theorem Rel.charge (cw lo : Bool) (g : GcS α) (k : String) (x : α)
     (fun _ => le_trans (neg_nonpos.mpr (le_max_right _ _)) hx0)
 
 
-/-- no vehicle of the world is V2G-capable -/
-def NoV2g (w : SWorld α B) : Prop := ∀ v ∈ w.vehicles, v.v2g = false
-
-/-- side condition under which the feed-in bound is tracked: no stationary battery, or no V2G vehicle -/
-def Side (w : SWorld α B) : Prop := w.batteries = [] ∨ NoV2g w
-
-theorem noV2g_setVehicle (w : SWorld α B) (v0 : VehicleS α B) (b : B) (h : NoV2g w) :
-    NoV2g (w.setVehicle { ((w.vehicle? v0.id).getD v0) with bat := b }) := by
-  intro x hx
-  unfold SWorld.setVehicle at hx
-  simp only [List.mem_map] at hx
-  obtain ⟨y, hy, rfl⟩ := hx
-  split
-  · rename_i hid
-    simp only
-    cases hf : w.vehicle? v0.id with
-    | some v1 =>
-      simp only [Option.getD_some]
-      unfold SWorld.vehicle? at hf
-      exact h v1 (List.mem_of_find?_eq_some hf)
-    | none =>
-      exfalso
-      simp only [hf, Option.getD_none] at hid
-      unfold SWorld.vehicle? at hf
-      rw [List.find?_eq_none] at hf
-      exact hf y hy hid
-  · exact h y hy
-
-theorem side_vehicle_update (w : SWorld α B) (v0 : VehicleS α B) (b : B) (gc : GcS α) (cs : StationS α)
-    (h : Side w) :
-    Side (((w.setVehicle { ((w.vehicle? v0.id).getD v0) with bat := b }).setGc gc).setStation cs) := by
-  rcases h with h | h
-  · exact Or.inl h
-  · exact Or.inr (noV2g_setVehicle w v0 b h)
-
-theorem side_battery_update (w : SWorld α B) (b : StatBatS α B) (gc : GcS α) (h : Side w) :
-    Side ((w.setBattery b).setGc gc) := by
-  rcases h with h | h
-  · left
-    show (w.batteries.map _) = []
-    rw [h]; rfl
-  · exact Or.inr h
-/-- state invariant threaded through the passes, relative to the connector `g0` at the start; the
-lower bound is tracked only under the side condition `Side` -/
+/-- state invariant threaded through the passes, relative to the connector `g0` at the start -/
 def Inv (cw lo : Bool) (g0 : GcS α) (st : FState α B) : Prop :=
   (∃ g, st.w.gcs = [g] ∧ Rel cw lo g0 g) ∧ truthy st.window = cw ∧
-    (∀ t rest, st.ts = t :: rest → t.window = st.window) ∧ (lo = true → Side st.w)
+    (∀ t rest, st.ts = t :: rest → t.window = st.window)
 
 theorem clampV_le (p : α) (cs : StationS α) (v : VehicleS α B) :
     0 ≤ clampV p cs v ∧ clampV p cs v ≤ max 0 p := clampPower_bounds ..
@@ -240,7 +197,7 @@ theorem balVehicle_inv (ops : BatOps α B) (law : BatLaw ops) (env : FEnv α) (c
         split at h
         · cases h
         · rename_i fin hbis
-          obtain ⟨⟨g, hg, hrel⟩, hcw, hhead, hnb⟩ := hinv
+          obtain ⟨⟨g, hg, hrel⟩, hcw, hhead⟩ := hinv
           rw [theGc_single _ g hg] at h
           simp only at h
           split at h
@@ -253,7 +210,7 @@ theorem balVehicle_inv (ops : BatOps α B) (law : BatLaw ops) (env : FEnv α) (c
               simp only [Except.ok.injEq] at h
               subst h
               obtain ⟨ha0, hap⟩ := law.load_max _ _ _ _ hl
-              refine ⟨⟨(g.addLoad csId r.2).1, ?_, ?_⟩, hcw, ?_, fun hl => side_vehicle_update _ _ _ _ _ (hnb hl)⟩
+              refine ⟨⟨(g.addLoad csId r.2).1, ?_, ?_⟩, hcw, ?_⟩
               · simp only [setStation_gcs]
                 exact setGc_single _ g csId r.2 (by simpa using hg)
               · refine hrel.trans (Rel.charge cw lo g csId r.2 ?_ ha0)
@@ -406,7 +363,7 @@ theorem balV2gVehicle_inv (ops : BatOps α B) (law : BatLaw ops) (env : FEnv α)
           · rename_i dlr hdl
             split at h
             · simp only [Except.ok.injEq] at h; subst h; exact hinv
-            · obtain ⟨⟨g, hg, hrel⟩, hcw, hhead, hnb⟩ := hinv
+            · obtain ⟨⟨g, hg, hrel⟩, hcw, hhead⟩ := hinv
               rw [theGc_single _ g hg] at h
               simp only at h
               split at h
@@ -443,8 +400,7 @@ theorem balV2gVehicle_inv (ops : BatOps α B) (law : BatLaw ops) (env : FEnv α)
                         obtain ⟨ha0, hap⟩ := law.load_max _ _ _ _ hl
                         exact ⟨ha0, le_trans hap (max_le (le_trans (clampV_le _ _ _).2
                           (max_le (le_max_right _ _) (le_max_left _ _))) (le_max_right _ _))⟩
-                    refine ⟨⟨(g.addLoad csId r.2).1, ?_, ?_⟩, hcw, head_addTotal0 _ _ _ hhead,
-                      fun hl => side_vehicle_update _ _ _ _ _ (hnb hl)⟩
+                    refine ⟨⟨(g.addLoad csId r.2).1, ?_, ?_⟩, hcw, head_addTotal0 _ _ _ hhead⟩
                     · simp only [setStation_gcs]
                       exact setGc_single _ g csId r.2 (by simpa using hg)
                     · refine hrel.trans (Rel.charge cw lo g csId r.2 ?_ hr.1)
@@ -475,8 +431,7 @@ theorem balV2gVehicle_inv (ops : BatOps α B) (law : BatLaw ops) (env : FEnv α)
                           rw [pymin_eq]
                           exact le_trans (min_le_left _ _) (le_trans (clampV_le _ _ _).2
                             (max_le (le_max_right _ _) (le_max_left _ _)))
-                      refine ⟨⟨(g.addLoad csId (-r.2)).1, ?_, ?_⟩, hcw, head_subTotal0 _ _ _ hhead,
-                        fun hl => side_vehicle_update _ _ _ _ _ (hnb hl)⟩
+                      refine ⟨⟨(g.addLoad csId (-r.2)).1, ?_, ?_⟩, hcw, head_subTotal0 _ _ _ hhead⟩
                       · simp only [setStation_gcs]
                         exact setGc_single _ g csId (-r.2) (by simpa using hg)
                       · refine hrel.trans (Rel.addLoad cw lo g csId (-r.2) ?_ (fun hc => ?_) (fun _ => ?_))
@@ -505,7 +460,7 @@ theorem distributeBalancedV2g_inv (ops : BatOps α B) (law : BatLaw ops) (env : 
         simp only [Except.ok.injEq, Prod.mk.injEq] at h
         obtain ⟨rfl, _⟩ := h
         have hcur : truthy t0.window = cw := by
-          rw [hinv.2.2.1 t0 rest hts]; exact hinv.2.1
+          rw [hinv.2.2 t0 rest hts]; exact hinv.2.1
         exact foldlM_inv (balV2gVehicle ops env t0.window) (fun a => Inv cw lo g0 a.st)
           (fun s x s' hp hs => balV2gVehicle_inv ops law env heps cw lo g0 t0.window hcur s s' x hp hs)
           vs _ r hinv hr
@@ -543,21 +498,19 @@ theorem distributeBalancedBatteries_nobat (ops : BatOps α B) (env : FEnv α) (s
 theorem distributeBalancedBatteries_inv (ops : BatOps α B) (law : FwLaw ops) (env : FEnv α)
     (heps : 0 ≤ env.base.eps) (cw lo : Bool) (g0 : GcS α) (st st' : FState α B)
     (hinv : Inv cw lo g0 st)
-    (hpos : lo = true → truthy st.window = false →
-      st.w.batteries = [] ∨ ∀ g, st.w.gcs = [g] → 0 ≤ g.currentLoad)
     (h : distributeBalancedBatteries ops env st = .ok st') :
     Inv cw lo g0 st' := by
-  by_cases hbe : st.w.batteries = []
-  · rw [distributeBalancedBatteries_nobat ops env st st' hbe h]; exact hinv
   unfold distributeBalancedBatteries at h
   simp only [bind, Except.bind] at h
-  obtain ⟨⟨g, hg, hrel⟩, hcw, hhead, hnb0⟩ := hinv
+  obtain ⟨⟨g, hg, hrel⟩, hcw, hhead⟩ := hinv
   rw [theGc_single _ g hg] at h
   simp only at h
   split at h
   · cases h
   · rename_i total hbis
-    have htot : total ≤ max (g.curMax - g.currentLoad) 0 := by
+    -- the midpoint never exceeds the upper end of the bracket (repair FW3: feed-in headroom when discharging)
+    have htot : total ≤ max (if truthy st.window = true then g.curMax - g.currentLoad
+        else pymin (g.curMax - g.currentLoad) (g.curMax + g.currentLoad)) 0 := by
       refine bisectM_inv env.base.eps heps _ (-g.curMax) _ (fun t => t ≤ max _ 0) ?_ env.fuel _ _ 0 total
         (le_refl _) (le_refl _) (le_max_right _ _) hbis
       intro mid s r _ hm hr
@@ -577,26 +530,26 @@ theorem distributeBalancedBatteries_inv (ops : BatOps α B) (law : FwLaw ops) (e
         rcases le_total (total / nb) 0 with hle | hle
         · rw [hc, max_eq_right hle, mul_zero]; exact le_max_right _ _
         · rw [hc, max_eq_left hle, mul_div_cancel₀ _ (ne_of_gt hp)]; exact le_max_left _ _
-    have hsum' : nb * c ≤ max (g.curMax - g.currentLoad) 0 := le_trans hsum (max_le htot (le_max_right _ _))
     by_cases hwin : truthy st.window = true
     · -- window: every battery is offered `total / n`
-      simp only [hwin, if_true] at h
+      simp only [hwin, if_true] at h htot
+      have hsum' : nb * c ≤ max (g.curMax - g.currentLoad) 0 := le_trans hsum (max_le htot (le_max_right _ _))
       have hcw' : cw = true := by rw [← hcw]; exact hwin
       have key := foldlM_inv_idx _ (fun (k : Nat) (s : FState α B) =>
           (∃ g', s.w.gcs = [g'] ∧ g'.curMax = g.curMax ∧ g'.id = g.id ∧ g.currentLoad ≤ g'.currentLoad ∧
             g'.currentLoad ≤ g.currentLoad + (k : α) * c) ∧ s.window = st.window ∧
-            (∀ t rest, s.ts = t :: rest → t.window = st.window) ∧ (lo = true → Side s.w))
-          ?_ st.w.batteries 0 st st' ⟨⟨g, hg, rfl, rfl, le_refl _, by simp⟩, rfl, hhead, hnb0⟩ h
-      · obtain ⟨⟨g', hg', h1, h2, h3, h4⟩, hw', hh', hs'⟩ := key
+            (∀ t rest, s.ts = t :: rest → t.window = st.window))
+          ?_ st.w.batteries 0 st st' ⟨⟨g, hg, rfl, rfl, le_refl _, by simp⟩, rfl, hhead⟩ h
+      · obtain ⟨⟨g', hg', h1, h2, h3, h4⟩, hw', hh'⟩ := key
         refine ⟨⟨g', hg', hrel.trans ⟨h1, h2, ?_, fun _ => h3, fun _ => le_trans (min_le_left _ _) h3⟩⟩,
-          by rw [hw']; exact hcw, by rw [hw']; exact hh', hs'⟩
+          by rw [hw']; exact hcw, by rw [hw']; exact hh'⟩
         simp only [Nat.zero_add] at h4
         have : g'.currentLoad ≤ g.currentLoad + max (g.curMax - g.currentLoad) 0 := by linarith
         rcases le_total (g.curMax - g.currentLoad) 0 with hle | hle
         · rw [max_eq_right hle] at this; exact le_trans (by linarith) (le_max_left _ _)
         · rw [max_eq_left hle] at this; exact le_trans (by linarith) (le_max_right _ _)
       · intro k s b0 s' hp hs
-        obtain ⟨⟨g1, hg1, h1, h2, h3, h4⟩, hw1, hh1, hs1⟩ := hp
+        obtain ⟨⟨g1, hg1, h1, h2, h3, h4⟩, hw1, hh1⟩ := hp
         rw [theGc_single _ g1 hg1] at hs
         simp only at hs
         set b := (List.find? (fun x => x.id == b0.id) s.w.batteries).getD b0 with hb
@@ -615,41 +568,40 @@ theorem distributeBalancedBatteries_inv (ops : BatOps α B) (law : FwLaw ops) (e
             obtain ⟨ha0, hap⟩ := law.load_max _ _ _ _ hl
             have hr : r.2 ≤ c := le_trans hap (max_le hav hc0)
             refine ⟨⟨(g1.addLoad _ r.2).1, setGc_single' _ _ g1 _ r.2 hg1, by rw [addLoad_curMax, h1],
-              by rw [addLoad_id, h2], by rw [addLoad_load]; linarith, ?_⟩, hw1, head_addTotal0 _ _ _ hh1,
-              fun hl => side_battery_update _ _ _ (hs1 hl)⟩
+              by rw [addLoad_id, h2], by rw [addLoad_load]; linarith, ?_⟩, hw1, head_addTotal0 _ _ _ hh1⟩
             rw [addLoad_load]
             push_cast
             linarith
         · simp only [Except.ok.injEq] at hs
           subst hs
-          refine ⟨⟨g1, hg1, h1, h2, h3, ?_⟩, hw1, hh1, hs1⟩
+          refine ⟨⟨g1, hg1, h1, h2, h3, ?_⟩, hw1, hh1⟩
           push_cast
           linarith
-    · -- no window: every battery discharges at most `total / n`
-      simp only [hwin, Bool.false_eq_true, ↓reduceIte] at h
+    · -- no window: every battery discharges at most `total / n`, in total at most the feed-in headroom
+      simp only [hwin, Bool.false_eq_true, ↓reduceIte, pymin_eq] at h htot
       have hwinf : truthy st.window = false := by simpa using hwin
       have hcwf : cw = false := by rw [← hcw]; exact hwinf
+      have hsum' : nb * c ≤ max (g.curMax + g.currentLoad) 0 :=
+        le_trans hsum (max_le (le_trans htot (max_le (le_trans (min_le_right _ _) (le_max_left _ _))
+          (le_max_right _ _))) (le_max_right _ _))
       have key := foldlM_inv_idx _ (fun (k : Nat) (s : FState α B) =>
           (∃ g', s.w.gcs = [g'] ∧ g'.curMax = g.curMax ∧ g'.id = g.id ∧ g'.currentLoad ≤ g.currentLoad ∧
             g.currentLoad - (k : α) * c ≤ g'.currentLoad) ∧ s.window = st.window ∧
-            (∀ t rest, s.ts = t :: rest → t.window = st.window) ∧ (lo = true → Side s.w))
-          ?_ st.w.batteries 0 st st' ⟨⟨g, hg, rfl, rfl, le_refl _, by simp⟩, rfl, hhead, hnb0⟩ h
-      · obtain ⟨⟨g', hg', h1, h2, h3, h4⟩, hw', hh', hs'⟩ := key
-        refine ⟨⟨g', hg', hrel.trans ⟨h1, h2, le_trans h3 (le_max_left _ _), fun hc' => ?_, fun hl => ?_⟩⟩,
-          by rw [hw']; exact hcw, by rw [hw']; exact hh', hs'⟩
+            (∀ t rest, s.ts = t :: rest → t.window = st.window))
+          ?_ st.w.batteries 0 st st' ⟨⟨g, hg, rfl, rfl, le_refl _, by simp⟩, rfl, hhead⟩ h
+      · obtain ⟨⟨g', hg', h1, h2, h3, h4⟩, hw', hh'⟩ := key
+        refine ⟨⟨g', hg', hrel.trans ⟨h1, h2, le_trans h3 (le_max_left _ _), fun hc' => ?_, fun _ => ?_⟩⟩,
+          by rw [hw']; exact hcw, by rw [hw']; exact hh'⟩
         · rw [hcwf] at hc'; cases hc'
         · simp only [Nat.zero_add] at h4
-          rcases hpos hl hwinf with hb0 | hp0
-          · exact absurd hb0 hbe
-          · have hL := hp0 g hg
-            have : g.currentLoad - max (g.curMax - g.currentLoad) 0 ≤ g'.currentLoad := by linarith
-            rcases le_total (g.curMax - g.currentLoad) 0 with hle | hle
-            · rw [max_eq_right hle] at this
-              exact le_trans (min_le_left _ _) (by linarith)
-            · rw [max_eq_left hle] at this
-              exact le_trans (min_le_right _ _) (by linarith)
+          have : g.currentLoad - max (g.curMax + g.currentLoad) 0 ≤ g'.currentLoad := by linarith
+          rcases le_total (g.curMax + g.currentLoad) 0 with hle | hle
+          · rw [max_eq_right hle] at this
+            exact le_trans (min_le_left _ _) (by linarith)
+          · rw [max_eq_left hle] at this
+            exact le_trans (min_le_right _ _) (by linarith)
       · intro k s b0 s' hp hs
-        obtain ⟨⟨g1, hg1, h1, h2, h3, h4⟩, hw1, hh1, hs1⟩ := hp
+        obtain ⟨⟨g1, hg1, h1, h2, h3, h4⟩, hw1, hh1⟩ := hp
         rw [theGc_single _ g1 hg1] at hs
         simp only at hs
         split at hs
@@ -667,8 +619,7 @@ theorem distributeBalancedBatteries_inv (ops : BatOps α B) (law : FwLaw ops) (e
               obtain ⟨hu0, hup⟩ := law.unload_maxonly _ _ _ _ hl
               exact ⟨hu0, le_trans hup (max_le (le_max_left _ _) hc0)⟩
           refine ⟨⟨(g1.addLoad _ (-r.2)).1, setGc_single' _ _ g1 _ _ hg1, by rw [addLoad_curMax, h1],
-            by rw [addLoad_id, h2], by rw [addLoad_load]; linarith [hr.1], ?_⟩, hw1, head_subTotal0 _ _ _ hh1,
-            fun hl => side_battery_update _ _ _ (hs1 hl)⟩
+            by rw [addLoad_id, h2], by rw [addLoad_load]; linarith [hr.1], ?_⟩, hw1, head_subTotal0 _ _ _ hh1⟩
           rw [addLoad_load]
           push_cast
           linarith [hr.2]
@@ -691,30 +642,6 @@ theorem surplusToBatteries_nobat (ops : BatOps α B) (env : FEnv α) (w w' : SWo
   unfold surplusToBatteries at h
   simp only [hb, List.foldlM_nil, pure, Except.pure, Except.ok.injEq] at h
   exact h.symm
-
-theorem surplusToVehicles_side (ops : BatOps α B) (env : FEnv α) (w w' : SWorld α B)
-    (cmds : List (String × α)) (hs0 : Side w) (h : surplusToVehicles ops env w = .ok (w', cmds)) :
-    Side w' := by
-  unfold surplusToVehicles at h
-  refine foldlM_inv _ (fun (a : SWorld α B × List (String × α)) => Side a.1) ?_
-    w.vehicles (w, []) (w', cmds) hs0 h
-  intro s x s' hp hs
-  simp only [bind, Except.bind] at hs
-  repeat' split at hs
-  all_goals first
-    | (simp only [Except.ok.injEq] at hs; subst hs; first | exact hp | exact side_vehicle_update _ _ _ _ _ hp)
-    | cases hs
-
-theorem surplusToBatteries_side (ops : BatOps α B) (env : FEnv α) (w w' : SWorld α B)
-    (hs0 : Side w) (h : surplusToBatteries ops env w = .ok w') : Side w' := by
-  unfold surplusToBatteries at h
-  refine foldlM_inv _ (fun (a : SWorld α B) => Side a) ?_ w.batteries w w' hs0 h
-  intro s x s' hp hs
-  simp only [bind, Except.bind] at hs
-  repeat' split at hs
-  all_goals first
-    | (simp only [Except.ok.injEq] at hs; subst hs; first | exact hp | exact side_battery_update _ _ _ hp)
-    | cases hs
 
 theorem balV2gVehicle_batteries (ops : BatOps α B) (env : FEnv α) (curWindow : Option Bool)
     (acc acc' : V2gAcc α B) (v0 : VehicleS α B)
@@ -745,35 +672,10 @@ theorem distributeBalancedV2g_batteries (ops : BatOps α B) (env : FEnv α) (st 
         exact foldlM_inv (balV2gVehicle ops env _) (fun a => a.st.w.batteries = st.w.batteries)
           (fun s x s' hp hs => by rw [balV2gVehicle_batteries ops env _ s s' x hs]; exact hp) vs _ r rfl hr
 
-/-- without V2G-capable vehicles the V2G pass gives no command -/
-theorem distributeBalancedV2g_noV2g (ops : BatOps α B) (env : FEnv α) (hstrat : env.strat = .balanced)
-    (st st' : FState α B) (cmds : List (String × α)) (hno : NoV2g st.w)
-    (h : distributeBalancedV2g ops env st = .ok (st', cmds)) : cmds = [] := by
-  unfold distributeBalancedV2g at h
-  have hf : st.w.vehicles.filter (fun v => v.cs.isSome && v.v2g) = [] := by
-    rw [List.filter_eq_nil_iff]
-    intro v hv
-    simp [hno v hv]
-  simp only [hf, sortedVehicles, hstrat, bind, Except.bind] at h
-  split at h
-  · cases h
-  · rename_i vs hvs
-    split at hvs
-    · cases hvs
-    · split at hvs
-      · cases hvs
-      · simp only [List.mergeSort_nil, Except.ok.injEq] at hvs
-        subst hvs
-        split at h
-        · cases h
-        · simp only [List.foldlM_nil, pure, Except.pure, Except.ok.injEq, Prod.mk.injEq] at h
-          exact h.2.symm
-
 theorem step_balanced_rel (ops : BatOps α B) (law : FwLaw ops) (env : FEnv α)
     (hstrat : env.strat = .balanced) (heps : 0 ≤ env.base.eps) (lo : Bool)
     (w w' : SWorld α B) (window win' : Option Bool) (events : List (FEvent α))
     (cmds : List (String × α)) (g : GcS α) (hg : w.gcs = [g]) (hM : 0 ≤ g.curMax)
-    (hb : lo = true → Side w)
     (h : step ops env w window events = .ok (w', win', cmds)) :
     ∃ g', w'.gcs = [g'] ∧ Rel (truthy win') lo g g' := by
   unfold step at h
@@ -791,13 +693,13 @@ theorem step_balanced_rel (ops : BatOps α B) (law : FwLaw ops) (env : FEnv α)
         ⟨⟨g, by simpa using hg, Rel.refl cw lo g⟩, rfl, by
           intro t r ht
           simp only [List.cons.injEq] at ht
-          rw [ht.1], fun hl => hb hl⟩
+          rw [ht.1]⟩
       split at h
       · cases h
       · rename_i r1 h1
         obtain ⟨st1, c1⟩ := r1
         have hinv1 := distributeBalancedVehicles_inv ops law.toBatLaw env cw lo g _ st1 c1 hinv0 h1
-        obtain ⟨⟨g1, hg1, hrel1⟩, hcw1, hh1, hb1⟩ := hinv1
+        obtain ⟨⟨g1, hg1, hrel1⟩, hcw1, hh1⟩ := hinv1
         simp only at h
         rw [theGc_single _ g1 hg1] at h
         simp only at h
@@ -805,31 +707,24 @@ theorem step_balanced_rel (ops : BatOps α B) (law : FwLaw ops) (env : FEnv α)
         · cases h
         · rename_i r2 h2
           obtain ⟨st2, c2, lv⟩ := r2
-          have hinv2 : Inv cw lo g st2 ∧ (lo = true → st2.w.batteries = [] ∨ lv = false) := by
+          have hinv2 : Inv cw lo g st2 := by
             split at h2
             · split at h2
               · cases h2
               · rename_i r hs
                 simp only [pure, Except.pure, Except.ok.injEq, Prod.mk.injEq] at h2
-                obtain ⟨rfl, _, hlv⟩ := h2
+                obtain ⟨rfl, _, _⟩ := h2
                 obtain ⟨g2, hg2, hrel2⟩ := surplusToVehicles_rel ops law.toBatLaw env cw lo st1.w r.1 r.2 g1 hg1
                   (by rw [hrel1.1]; exact hM) hs
-                exact ⟨⟨⟨g2, hg2, hrel1.trans hrel2⟩, hcw1, hh1,
-                  fun hl => surplusToVehicles_side ops env st1.w r.1 r.2 (hb1 hl) hs⟩, fun _ => Or.inr hlv.symm⟩
+                exact ⟨⟨g2, hg2, hrel1.trans hrel2⟩, hcw1, hh1⟩
             · split at h2
               · cases h2
               · rename_i r hs
                 simp only [pure, Except.pure, Except.ok.injEq, Prod.mk.injEq] at h2
-                obtain ⟨rfl, _, hlv⟩ := h2
-                refine ⟨distributeBalancedV2g_inv ops law.toBatLaw env heps cw lo g st1 r.1 r.2
-                  ⟨⟨g1, hg1, hrel1⟩, hcw1, hh1, hb1⟩ hs, fun hl => ?_⟩
-                rcases hb1 hl with hbe | hno
-                · left
-                  rw [distributeBalancedV2g_batteries ops env st1 r.1 r.2 hs]; exact hbe
-                · right
-                  rw [← hlv, distributeBalancedV2g_noV2g ops env hstrat st1 r.1 r.2 hno hs]
-                  rfl
-          obtain ⟨⟨⟨g2, hg2, hrel2⟩, hcw2, hh2, hb2⟩, hlv2⟩ := hinv2
+                obtain ⟨rfl, _, _⟩ := h2
+                exact distributeBalancedV2g_inv ops law.toBatLaw env heps cw lo g st1 r.1 r.2
+                  ⟨⟨g1, hg1, hrel1⟩, hcw1, hh1⟩ hs
+          obtain ⟨⟨g2, hg2, hrel2⟩, hcw2, hh2⟩ := hinv2
           simp only at h
           rw [theGc_single _ g2 hg2] at h
           simp only at h
@@ -847,20 +742,9 @@ theorem step_balanced_rel (ops : BatOps α B) (law : FwLaw ops) (env : FEnv α)
                   subst h3
                   obtain ⟨g3, hg3, hrel3⟩ := surplusToBatteries_rel ops law.toBatLaw env cw lo st2.w w3 g2 hg2
                     (by rw [hrel2.1]; exact hM) hs
-                  exact ⟨⟨g3, hg3, hrel2.trans hrel3⟩, hcw2, hh2,
-                    fun hl => surplusToBatteries_side ops env st2.w w3 (hb2 hl) hs⟩
-              · rename_i hbr
-                refine distributeBalancedBatteries_inv ops law env heps cw lo g st2 st3
-                  ⟨⟨g2, hg2, hrel2⟩, hcw2, hh2, hb2⟩ (fun hl _ => ?_) h3
-                rcases hlv2 hl with hbe | hlvf
-                · exact Or.inl hbe
-                · right
-                  intro gx hgx
-                  rw [hg2] at hgx
-                  simp only [List.cons.injEq, and_true] at hgx
-                  subst hgx
-                  by_contra hneg
-                  exact hbr ⟨not_le.mp hneg, hlvf⟩
+                  exact ⟨⟨g3, hg3, hrel2.trans hrel3⟩, hcw2, hh2⟩
+              · exact distributeBalancedBatteries_inv ops law env heps cw lo g st2 st3
+                  ⟨⟨g2, hg2, hrel2⟩, hcw2, hh2⟩ h3
             obtain ⟨⟨g3, hg3, hrel3⟩, hcw3, _⟩ := hinv3
             exact ⟨g3, hg3, by rw [hcw3]; exact hrel3⟩
 
@@ -2409,6 +2293,725 @@ theorem step_balanced_finv (ops : BatOps α B) (env : FEnv α) (hstrat : env.str
                       subst h3
                       exact surplusToBatteries_finv ops env BK _ _ hinv2 hs
                   · exact distributeBalancedBatteries_finv ops env BK _ _ hinv2 h3
+/-! ### LOAD_STRAT greedy after the repairs FW1 … FW5 -/
+
+/-- sum of the values of a dict -/
+def asum (l : List (String × α)) : α := l.foldl (fun a kv => a + kv.2) 0
+
+theorem asum_cons (x : String × α) (xs : List (String × α)) : asum (x :: xs) = x.2 + asum xs := by
+  unfold asum
+  simp only [List.foldl_cons]
+  rw [foldl_add_init]; ring
+
+theorem asum_sdSet_le (l : List (String × α)) (k : String) (v : α) (h0 : ∀ kv ∈ l, 0 ≤ kv.2) :
+    asum (sdSet l k v) ≤ asum l + v := by
+  induction l with
+  | nil => simp [sdSet, asum]
+  | cons x xs ih =>
+    obtain ⟨xk, xv⟩ := x
+    have hx0 : 0 ≤ xv := h0 (xk, xv) (List.mem_cons_self ..)
+    by_cases hk : (xk == k) = true
+    · simp only [sdSet, hk, if_true, asum_cons]; linarith
+    · simp only [sdSet, hk, Bool.false_eq_true, if_false, asum_cons]
+      have := ih (fun kv hkv => h0 kv (List.mem_cons_of_mem _ hkv))
+      linarith
+
+theorem mem_sdSet (l : List (String × α)) (k : String) (v : α) (kv : String × α)
+    (h : kv ∈ sdSet l k v) : kv ∈ l ∨ kv.2 = v := by
+  induction l with
+  | nil => simp [sdSet] at h; right; rw [h]
+  | cons x xs ih =>
+    obtain ⟨xk, xv⟩ := x
+    by_cases hk : (xk == k) = true
+    · simp only [sdSet, hk, if_true, List.mem_cons] at h
+      rcases h with h | h
+      · right; rw [h]
+      · left; exact List.mem_cons_of_mem _ h
+    · simp only [sdSet, hk, Bool.false_eq_true, if_false, List.mem_cons] at h
+      rcases h with h | h
+      · left; rw [h]; exact List.mem_cons_self ..
+      · rcases ih h with h' | h'
+        · left; exact List.mem_cons_of_mem _ h'
+        · right; exact h'
+
+/-- **repair FW4:** greedy `distribute_power` hands out at most the budget in total -/
+theorem distributePower_greedy_sum (ops : BatOps α B) (law : BatLaw ops) (env : FEnv α)
+    (hstrat : env.strat = .greedy) (w : SWorld α B) (vs vs' : List (VehicleS α B)) (P N : α)
+    (cmds : List (String × α)) (h : distributePower ops env w vs P N = .ok (vs', cmds)) :
+    (∀ kv ∈ cmds, 0 ≤ kv.2) ∧ asum cmds ≤ max P 0 := by
+  unfold distributePower at h
+  split at h
+  · simp only [Except.ok.injEq, Prod.mk.injEq] at h
+    obtain ⟨_, rfl⟩ := h
+    exact ⟨by simp, by simp [asum]⟩
+  · rename_i hpos
+    simp only [not_or, not_le] at hpos
+    simp only [bind, Except.bind] at h
+    split at h
+    · cases h
+    · rename_i r hr
+      simp only [Except.ok.injEq, Prod.mk.injEq] at h
+      obtain ⟨_, rfl⟩ := h
+      have key := foldlM_inv _ (fun (a : List (VehicleS α B) × List (String × α) × α) =>
+          0 ≤ a.2.2 ∧ (∀ kv ∈ a.2.1, 0 ≤ kv.2) ∧ asum a.2.1 + a.2.2 ≤ P) ?_ vs ([], [], P) r
+          ⟨hpos.1.le, by simp, by simp [asum]⟩ hr
+      · exact ⟨key.2.1, le_trans (by linarith [key.1, key.2.2]) (le_max_left _ _)⟩
+      · intro s x s' hp hs
+        obtain ⟨hrem, hnn, hsum⟩ := hp
+        simp only [hstrat] at hs
+        split at hs
+        · cases hs
+        · split at hs
+          · cases hs
+          · rename_i cs hst
+            split at hs
+            · cases hs
+            · rename_i rl hl
+              rw [liftM_ok] at hl
+              simp only [Except.ok.injEq] at hs
+              subst hs
+              obtain ⟨ha0, hap⟩ := law.load_max _ _ _ _ hl
+              have hle : rl.2 ≤ s.2.2 := by
+                refine le_trans hap (max_le (le_trans (clampV_le _ _ _).2 (max_le hrem (le_refl _))) hrem)
+              have hb : (LoadStrat.greedy == LoadStrat.greedy) = true := rfl
+              simp only [hb, if_true]
+              refine ⟨by linarith, ?_, ?_⟩
+              · intro kv hkv
+                rcases mem_sdSet _ _ _ kv hkv with h1 | h1
+                · exact hnn kv h1
+                · rw [h1]; exact ha0
+              · refine le_trans (add_le_add_left (asum_sdSet_le _ _ _ hnn) _) ?_
+                linarith
+
+theorem asum_eq (l : List (String × α)) : asum l = (l.map (·.2)).sum := by
+  induction l with
+  | nil => simp [asum]
+  | cons x xs ih => rw [asum_cons, ih]; simp
+
+theorem asum_nonneg (l : List (String × α)) (h : ∀ kv ∈ l, 0 ≤ kv.2) : 0 ≤ asum l := by
+  induction l with
+  | nil => simp [asum]
+  | cons x xs ih =>
+    rw [asum_cons]
+    have := ih (fun kv hkv => h kv (List.mem_cons_of_mem _ hkv))
+    have := h x (List.mem_cons_self ..)
+    linarith
+
+theorem foldlM_measure {σ β ε : Type} (f : σ → β → Except ε σ) (Q : σ → Prop) (m : σ → α) (wt : β → α)
+    (hf : ∀ s x s', Q s → f s x = .ok s' → Q s' ∧ m s' = m s + wt x) :
+    ∀ (l : List β) (s s' : σ), Q s → l.foldlM f s = .ok s' → Q s' ∧ m s' = m s + (l.map wt).sum := by
+  intro l
+  induction l with
+  | nil =>
+    intro s s' hq h
+    simp only [List.foldlM_nil, pure, Except.pure, Except.ok.injEq] at h
+    subst h; exact ⟨hq, by simp⟩
+  | cons x xs ih =>
+    intro s s' hq h
+    simp only [List.foldlM_cons, bind, Except.bind] at h
+    split at h
+    · cases h
+    · rename_i s1 hs1
+      obtain ⟨hq1, hm1⟩ := hf s x s1 hq hs1
+      obtain ⟨hq', hm'⟩ := ih s1 s' hq1 h
+      refine ⟨hq', ?_⟩
+      rw [hm', hm1, List.map_cons, List.sum_cons]; ring
+
+/-- `distribute_power` hands out at most its budget (greedy: repair FW4; needy: exact shares) -/
+def DPBound (ops : BatOps α B) (env : FEnv α) : Prop :=
+  ∀ (w : SWorld α B) (vs vs' : List (VehicleS α B)) (P : α) (cmds : List (String × α)),
+    distributePower ops env w vs P (env.sum (vs.map (fun v => energyNeededFull ops v.bat))) = .ok (vs', cmds) →
+    (∀ kv ∈ cmds, 0 ≤ kv.2) ∧ asum cmds ≤ max P 0
+
+theorem DPBound.greedy (ops : BatOps α B) (law : BatLaw ops) (env : FEnv α) (hstrat : env.strat = .greedy) :
+    DPBound ops env :=
+  fun w vs vs' P cmds h => distributePower_greedy_sum ops law env hstrat w vs vs' P _ cmds h
+
+/-- `distribute_peak_shaving_vehicles` is a `Rel` step when `distribute_power` keeps its budget -/
+theorem distributePeakShavingVehicles_inv (ops : BatOps α B) (law : BatLaw ops) (env : FEnv α)
+    (hdpb : DPBound ops env) (heps : 0 ≤ env.base.eps) (cw lo : Bool) (g0 : GcS α)
+    (st st' : FState α B) (cmds : List (String × α)) (hM : 0 ≤ g0.curMax)
+    (hinv : Inv cw lo g0 st) (h : distributePeakShavingVehicles ops env st = .ok (st', cmds)) :
+    Inv cw lo g0 st' := by
+  unfold distributePeakShavingVehicles at h
+  obtain ⟨⟨g, hg, hrel⟩, hcw, hhead⟩ := hinv
+  rw [theGc_single _ g hg] at h
+  simp only [bind, Except.bind] at h
+  split at h
+  · cases h
+  · rename_i vehicles _
+    split at h
+    · cases h
+    · rename_i sim _
+      split at h
+      · cases h
+      · rename_i total hbis
+        have hgM : 0 ≤ g.curMax := by rw [hrel.1]; exact hM
+        have htot : ∀ tp, total = some tp → tp ≤ g.curMax := by
+          refine bisectM_inv env.base.eps heps _ (-g.curMax) g.curMax
+            (fun (t : Option α) => ∀ tp, t = some tp → tp ≤ g.curMax) ?_ env.fuel _ _ none total
+            (le_refl _) (le_refl _) (by simp) hbis
+          intro mid s r _ hm hr
+          split at hr
+          · cases hr
+          · simp only [Except.ok.injEq] at hr
+            subst hr
+            intro tp htp
+            simp only [Option.some.injEq] at htp
+            rw [← htp]; exact hm
+        split at h
+        · cases h
+        · rename_i dp hdp
+          obtain ⟨vs', dcm⟩ := dp
+          -- what `distribute_power` handed out
+          have hd : (∀ kv ∈ dcm, 0 ≤ kv.2) ∧ asum dcm ≤ max (g.curMax - g.currentLoad) 0 := by
+            split at hdp
+            · split at hdp
+              · cases hdp
+              · obtain ⟨h1, h2⟩ := hdpb _ _ _ _ _ hdp
+                refine ⟨h1, le_trans h2 (max_le_max ?_ (le_refl _))⟩
+                have := htot _ rfl
+                linarith
+            · split at hdp
+              · exact hdpb _ _ _ _ _ hdp
+              · simp only [Except.ok.injEq, Prod.mk.injEq] at hdp
+                obtain ⟨_, rfl⟩ := hdp
+                exact ⟨by simp, by simp [asum]⟩
+          simp only at h
+          have key := foldlM_measure _
+            (fun (a : FState α B × List (String × α)) =>
+              (∃ g', a.1.w.gcs = [g'] ∧ g'.curMax = g.curMax ∧ g'.id = g.id) ∧ a.1.window = st.window ∧
+                (∀ t rest, a.1.ts = t :: rest → t.window = st.window))
+            (fun a => (a.1.w.gcs.map GcS.currentLoad).sum) (fun (kv : String × α) => kv.2) ?_ dcm _ (st', cmds)
+            ⟨⟨g, hg, rfl, rfl⟩, rfl, hhead⟩ h
+          · obtain ⟨⟨⟨g', hg', h1, h2⟩, hw', hh'⟩, hm⟩ := key
+            simp only at hg' hw' hh' hm
+            simp only [hg', hg, List.map_cons, List.map_nil, List.sum_cons, List.sum_nil, add_zero] at hm
+            rw [← asum_eq] at hm
+            have hs0 := asum_nonneg dcm hd.1
+            refine ⟨⟨g', hg', hrel.trans ⟨h1, h2, ?_, fun _ => by linarith, fun _ => ?_⟩⟩,
+              by rw [hw']; exact hcw, by rw [hw']; exact hh'⟩
+            · rw [hm]
+              rcases le_total (g.curMax - g.currentLoad) 0 with hle | hle
+              · have := hd.2; rw [max_eq_right hle] at this
+                exact le_trans (by linarith) (le_max_left _ _)
+              · have := hd.2; rw [max_eq_left hle] at this
+                exact le_trans (by linarith) (le_max_right _ _)
+            · exact le_trans (min_le_left _ _) (by linarith)
+          · intro a kv a' hq ha
+            obtain ⟨⟨g1, hg1, e1, e2⟩, hw1, hh1⟩ := hq
+            split at ha
+            · cases ha
+            · rw [theGc_single _ g1 hg1] at ha
+              simp only at ha
+              split at ha
+              · cases ha
+              · rename_i hass
+                simp only [Except.ok.injEq] at ha
+                subst ha
+                have hgs : (a.1.w.setGc (g1.addLoad kv.1 kv.2).1).gcs = [(g1.addLoad kv.1 kv.2).1] :=
+                  setGc_single _ g1 _ _ hg1
+                refine ⟨⟨⟨_, by simp only [setStation_gcs]; exact hgs, by rw [addLoad_curMax, e1],
+                  by rw [addLoad_id, e2]⟩, hw1, ?_⟩, ?_⟩
+                · intro t rest ht
+                  simp only at ht
+                  cases hts : a.1.ts with
+                  | nil => rw [hts] at ht; simp at ht
+                  | cons t1 r1 =>
+                    rw [hts] at ht
+                    simp only [List.cons.injEq] at ht
+                    obtain ⟨rfl, _⟩ := ht
+                    exact hh1 t1 r1 hts
+                · simp only [setStation_gcs, hgs, hg1, List.map_cons, List.map_nil, List.sum_cons, List.sum_nil,
+                    add_zero, addLoad_load]
+
+/-- `Strategy.distribute_surplus_power` (one vehicle) on a single-connector world is a `Rel` step -/
+theorem surplusVehicle_rel (ops : BatOps α B) (law : BatLaw ops) (env : StratEnv α) (heps : 0 ≤ env.eps)
+    (lo : Bool) (cheap : List (String × Bool)) (w w' : SWorld α B) (cmds cmds' : List (String × α))
+    (v : VehicleS α B) (g : GcS α) (hg : w.gcs = [g]) (hM : 0 ≤ g.curMax)
+    (h : surplusVehicle ops env cheap w cmds v = .ok (w', cmds')) :
+    ∃ g', w'.gcs = [g'] ∧ Rel false lo g g' := by
+  unfold surplusVehicle at h
+  split at h
+  · simp only [Except.ok.injEq, Prod.mk.injEq] at h; obtain ⟨rfl, _⟩ := h; exact ⟨g, hg, Rel.refl _ _ g⟩
+  · rename_i csId _
+    split at h
+    · cases h
+    · rename_i cs _
+      split at h
+      · cases h
+      · rename_i gc hgc
+        have : gc = g := gc?_single _ g gc _ hg hgc
+        subst this
+        simp only at h
+        split at h
+        · rename_i hsur
+          simp only [bind, Except.bind] at h
+          split at h
+          · cases h
+          · rename_i r hl
+            simp only [Except.ok.injEq, Prod.mk.injEq] at h
+            obtain ⟨rfl, _⟩ := h
+            obtain ⟨ha0, hap⟩ := law.load_max _ _ _ _ hl
+            refine ⟨(gc.addLoad csId r.2).1, by simp only [setStation_gcs]; exact setGc_single _ gc csId r.2 (by simpa using hg),
+              Rel.charge false lo gc csId r.2 ?_ ha0⟩
+            have hpos : 0 < -gc.currentLoad := lt_of_le_of_lt heps hsur
+            have hc := (clampPower_bounds (-gc.currentLoad) cs.currentPower cs.maxPower cs.minPower v.minChargingPower)
+            rw [max_eq_right hpos.le] at hc
+            rw [max_eq_left hc.1] at hap
+            exact le_trans (by linarith [hc.2]) (le_max_left _ _)
+        · split at h
+          · rename_i hcond
+            simp only [bind, Except.bind] at h
+            split at h
+            · cases h
+            · rename_i r hl
+              simp only [Except.ok.injEq, Prod.mk.injEq] at h
+              obtain ⟨rfl, _⟩ := h
+              obtain ⟨ha0, hap⟩ := law.unload_max _ _ _ _ _ hl
+              have hL : 0 < gc.currentLoad := by
+                have := hcond.1
+                linarith
+              have hle : r.2 ≤ gc.currentLoad := by
+                refine le_trans hap (max_le ?_ hL.le)
+                simp only [pymin_eq]
+                refine le_trans (min_le_left _ _) (le_trans (min_le_left _ _) ?_)
+                simp
+              refine ⟨(gc.addLoad csId (-r.2)).1, by simp only [setStation_gcs]; exact setGc_single _ gc csId _ (by simpa using hg),
+                Rel.addLoad false lo gc csId (-r.2) (le_trans (by linarith) (le_max_right _ _)) (by simp) (fun _ => ?_)⟩
+              rw [neg_le_neg_iff]
+              exact le_trans (by linarith) (le_max_left _ _)
+          · simp only [Except.ok.injEq, Prod.mk.injEq] at h; obtain ⟨rfl, _⟩ := h; exact ⟨gc, hg, Rel.refl _ _ gc⟩
+
+theorem distributeSurplus_rel (ops : BatOps α B) (law : BatLaw ops) (env : StratEnv α) (heps : 0 ≤ env.eps)
+    (lo : Bool) (w w' : SWorld α B) (cmds : List (String × α)) (g : GcS α) (hg : w.gcs = [g])
+    (hM : 0 ≤ g.curMax) (h : distributeSurplus ops env w = .ok (w', cmds)) :
+    ∃ g', w'.gcs = [g'] ∧ Rel false lo g g' := by
+  unfold distributeSurplus at h
+  simp only [bind, Except.bind] at h
+  split at h
+  · cases h
+  · rename_i cheap _
+    refine foldlM_inv _ (fun (a : SWorld α B × List (String × α)) => ∃ g', a.1.gcs = [g'] ∧ Rel false lo g g')
+      ?_ w.vehicles (w, []) (w', cmds) ⟨g, hg, Rel.refl _ _ g⟩ h
+    intro s x s' hp hs
+    obtain ⟨g1, hg1, hrel1⟩ := hp
+    split at hs
+    · simp only [Except.ok.injEq] at hs; subst hs; exact ⟨g1, hg1, hrel1⟩
+    · obtain ⟨g2, hg2, hrel2⟩ := surplusVehicle_rel ops law env heps lo cheap s.1 s'.1 s.2 s'.2 _ g1 hg1
+        (by rw [hrel1.1]; exact hM) hs
+      exact ⟨g2, hg2, hrel1.trans hrel2⟩
+
+/-- invariant of the greedy/needy passes: no statement about the direction (the surplus pass may discharge in a window) -/
+def Inv2 (lo : Bool) (g0 : GcS α) (st : FState α B) : Prop :=
+  (∃ g, st.w.gcs = [g] ∧ Rel false lo g0 g) ∧ (∀ t rest, st.ts = t :: rest → t.window = st.window)
+
+theorem Rel.weaken {cw lo : Bool} {a b : GcS α} (h : Rel cw lo a b) : Rel false lo a b :=
+  ⟨h.1, h.2.1, h.2.2.1, by simp, h.2.2.2.2⟩
+
+theorem psV2gVehicle_inv (ops : BatOps α B) (law : BatLaw ops) (env : FEnv α)
+    (lo : Bool) (g0 : GcS α) (curWindow : Option Bool)
+    (acc acc' : V2gAcc α B) (v0 : VehicleS α B)
+    (hinv : Inv2 lo g0 acc.st)
+    (h : psV2gVehicle ops env curWindow acc v0 = .ok acc') :
+    (∃ g', acc'.st.w.gcs = [g'] ∧ Rel false lo g0 g') ∧ acc'.st.window = acc.st.window ∧
+      (∀ t rest, acc'.st.ts = t :: rest → t.window = acc.st.window) := by
+  obtain ⟨⟨g, hg, hrel⟩, hhead⟩ := hinv
+  unfold psV2gVehicle at h
+  simp only [bind, Except.bind, pure, Except.pure] at h
+  split at h
+  · simp only [Except.ok.injEq] at h; subst h; exact ⟨⟨g, hg, hrel⟩, rfl, hhead⟩
+  · split at h
+    · cases h
+    · rename_i csId _
+      split at h
+      · cases h
+      · rename_i cs _
+        split at h
+        · cases h
+        · split at h
+          · cases h
+          · split at h
+            · simp only [Except.ok.injEq] at h; subst h; exact ⟨⟨g, hg, hrel⟩, rfl, hhead⟩
+            · rw [theGc_single _ g hg] at h
+              simp only at h
+              split at h
+              · -- window: charge
+                split at h
+                · cases h
+                · split at h
+                  · cases h
+                  · split at h
+                    · cases h
+                    · split at h
+                      · cases h
+                      · rename_i r hl
+                        rw [liftM_ok] at hl
+                        simp only [Except.ok.injEq] at h
+                        subst h
+                        obtain ⟨ha0, hap⟩ := law.load_max _ _ _ _ hl
+                        refine ⟨⟨(g.addLoad csId r.2).1, by simp only [setStation_gcs]; exact setGc_single _ g csId r.2 (by simpa using hg),
+                          hrel.trans (Rel.charge false lo g csId r.2 ?_ ha0)⟩, rfl, head_addTotal0 _ _ _ hhead⟩
+                        refine le_trans hap (max_le (le_trans (clampV_le _ _ _).2 (max_le (le_max_right _ _) ?_))
+                          (le_max_right _ _))
+                        split
+                        · exact le_max_right _ _
+                        · rw [pymin_eq]; exact le_trans (min_le_right _ _) (le_max_left _ _)
+              · -- no window: discharge
+                split at h
+                · cases h
+                · split at h
+                  · cases h
+                  · split at h
+                    · cases h
+                    · split at h
+                      · cases h
+                      · split at h
+                        · cases h
+                        · rename_i r hl
+                          simp only [Except.ok.injEq] at h
+                          subst h
+                          have hr : 0 ≤ r.2 ∧ r.2 ≤ max (g.curMax + g.currentLoad) 0 := by
+                            split at hl
+                            · rw [liftM_ok] at hl
+                              simp only [Except.ok.injEq] at hl
+                              subst hl
+                              exact ⟨le_refl _, le_max_right _ _⟩
+                            · rw [liftM_ok] at hl
+                              obtain ⟨hu0, hup⟩ := law.unload_max _ _ _ _ _ hl
+                              refine ⟨hu0, le_trans hup (max_le ?_ (le_max_right _ _))⟩
+                              simp only [pymin_eq]
+                              exact le_trans (min_le_left _ _) (le_trans (min_le_left _ _)
+                                (le_trans (min_le_right _ _) (le_max_left _ _)))
+                          refine ⟨⟨(g.addLoad csId (-r.2)).1, by simp only [setStation_gcs]; exact setGc_single _ g csId _ (by simpa using hg),
+                            hrel.trans (Rel.addLoad false lo g csId (-r.2) (le_trans (by linarith [hr.1]) (le_max_right _ _))
+                              (by simp) (fun _ => by rw [neg_le_neg_iff]; exact hr.2))⟩, rfl, head_subTotal0 _ _ _ hhead⟩
+
+theorem distributePeakShavingV2g_inv (ops : BatOps α B) (law : BatLaw ops) (env : FEnv α)
+    (lo : Bool) (g0 : GcS α) (st st' : FState α B) (cmds : List (String × α))
+    (hinv : Inv2 lo g0 st) (h : distributePeakShavingV2g ops env st = .ok (st', cmds)) :
+    Inv2 lo g0 st' := by
+  unfold distributePeakShavingV2g at h
+  simp only [bind, Except.bind] at h
+  split at h
+  · cases h
+  · rename_i vs _
+    split at h
+    · cases h
+    · split at h
+      · cases h
+      · rename_i r hr
+        simp only [Except.ok.injEq, Prod.mk.injEq] at h
+        obtain ⟨rfl, _⟩ := h
+        have := foldlM_inv (psV2gVehicle ops env _) (fun a => Inv2 lo g0 a.st ∧ a.st.window = st.window)
+          (fun s x s' hp hs => by
+            obtain ⟨h1, h2, h3⟩ := psV2gVehicle_inv ops law env lo g0 _ s s' x hp.1 hs
+            exact ⟨⟨h1, by rw [h2]; exact h3⟩, by rw [h2]; exact hp.2⟩) vs _ r ⟨hinv, rfl⟩ hr
+        exact this.1
+
+/-- `distribute_peak_shaving_batteries` after repair FW5: both modes stay within the actual headroom -/
+theorem distributePeakShavingBatteries_inv (ops : BatOps α B) (law : FwLaw ops) (env : FEnv α)
+    (lo : Bool) (g0 : GcS α) (st st' : FState α B)
+    (hinv : Inv2 lo g0 st) (h : distributePeakShavingBatteries ops env st = .ok st') :
+    ∃ g', st'.w.gcs = [g'] ∧ Rel false lo g0 g' := by
+  unfold distributePeakShavingBatteries at h
+  obtain ⟨⟨g, hg, hrel⟩, hhead⟩ := hinv
+  rw [theGc_single _ g hg] at h
+  simp only [bind, Except.bind] at h
+  set nb : α := (st.w.batteries.length : α) with hnb
+  have hnb0 : 0 ≤ nb := by rw [hnb]; exact Nat.cast_nonneg _
+  have hmul : ∀ A : α, 0 ≤ A → nb * (A / nb) ≤ A := by
+    intro A hA
+    rcases Nat.eq_zero_or_pos st.w.batteries.length with hz | hpos
+    · have : nb = 0 := by rw [hnb, hz]; simp
+      rw [this, zero_mul]; exact hA
+    · have hp : (0 : α) < nb := by rw [hnb]; exact_mod_cast hpos
+      rw [mul_div_cancel₀ _ (ne_of_gt hp)]
+  split at h
+  · -- charging mode
+    split at h
+    · cases h
+    · rename_i total _
+      split at h
+      · cases h
+      · cases h
+      · rename_i tp t0 rest
+        simp only [pymin_eq] at h
+        split at h
+        · cases h
+        · rename_i r hr
+          simp only [Except.ok.injEq] at h
+          subst h
+          set A : α := max (g.curMax - g.currentLoad) 0 with hA
+          have hA0 : 0 ≤ A := le_max_right _ _
+          have key := foldlM_inv_idx _ (fun (k : Nat) (a : FState α B × α) =>
+              (∃ g', a.1.w.gcs = [g'] ∧ g'.curMax = g.curMax ∧ g'.id = g.id ∧ g.currentLoad ≤ g'.currentLoad ∧
+                g'.currentLoad ≤ g.currentLoad + (k : α) * (A / nb)) ∧ a.2 ≤ A) ?_ st.w.batteries 0 _ r
+              ⟨⟨g, hg, rfl, rfl, le_refl _, by simp⟩, le_trans (min_le_right _ _) (le_max_left _ _)⟩ hr
+          · obtain ⟨⟨g', hg', h1, h2, h3, h4⟩, _⟩ := key
+            refine ⟨g', hg', hrel.trans ⟨h1, h2, ?_, by simp, fun _ => le_trans (min_le_left _ _) h3⟩⟩
+            simp only [Nat.zero_add] at h4
+            have := hmul A hA0
+            have h5 : g'.currentLoad ≤ g.currentLoad + A := by linarith
+            rcases le_total (g.curMax - g.currentLoad) 0 with hle | hle
+            · rw [hA, max_eq_right hle] at h5; exact le_trans (by linarith) (le_max_left _ _)
+            · rw [hA, max_eq_left hle] at h5; exact le_trans (by linarith) (le_max_right _ _)
+          · intro k a b0 a' hp ha
+            obtain ⟨⟨g1, hg1, e1, e2, e3, e4⟩, hav⟩ := hp
+            have hdiv0 : 0 ≤ A / nb := div_nonneg hA0 hnb0
+            set b := (List.find? (fun x => x.id == b0.id) a.1.w.batteries).getD b0 with hb
+            have hav' : (if a.2 < b.minChargingPower then (0 : α) else a.2) ≤ A := by
+              split
+              · exact hA0
+              · exact hav
+            generalize (if a.2 < b.minChargingPower then (0 : α) else a.2) = avail at ha hav'
+            split at ha
+            · rw [theGc_single _ g1 hg1] at ha
+              simp only at ha
+              split at ha
+              · cases ha
+              · rename_i rl hl
+                rw [liftM_ok] at hl
+                simp only [Except.ok.injEq] at ha
+                subst ha
+                obtain ⟨ha0, hap⟩ := law.load_max _ _ _ _ hl
+                have hr2 : rl.2 ≤ A / nb :=
+                  le_trans hap (max_le (div_le_div_of_nonneg_right hav' hnb0) hdiv0)
+                refine ⟨⟨(g1.addLoad _ rl.2).1, setGc_single' _ _ g1 _ rl.2 hg1, by rw [addLoad_curMax, e1],
+                  by rw [addLoad_id, e2], by rw [addLoad_load]; linarith, ?_⟩, hav'⟩
+                rw [addLoad_load]
+                push_cast
+                linarith
+            · simp only [Except.ok.injEq] at ha
+              subst ha
+              refine ⟨⟨g1, hg1, e1, e2, e3, ?_⟩, hav'⟩
+              push_cast
+              linarith
+  · -- discharging mode
+    split at h
+    · cases h
+    · rename_i total _
+      split at h
+      · cases h
+      · cases h
+      · rename_i t0 rest tp _ _
+        simp only [pymin_eq] at h
+        set A : α := max (g.curMax + g.currentLoad) 0 with hA
+        have hA0 : 0 ≤ A := le_max_right _ _
+        have hdiv0 : 0 ≤ A / nb := div_nonneg hA0 hnb0
+        have hneed : min (t0.totalLoad - tp) (g.curMax + g.currentLoad) ≤ A :=
+          le_trans (min_le_right _ _) (le_max_left _ _)
+        generalize min (t0.totalLoad - tp) (g.curMax + g.currentLoad) = needed at h hneed
+        have key := foldlM_inv_idx _ (fun (k : Nat) (a : FState α B) =>
+            (∃ g', a.w.gcs = [g'] ∧ g'.curMax = g.curMax ∧ g'.id = g.id ∧ g'.currentLoad ≤ g.currentLoad ∧
+              g.currentLoad - (k : α) * (A / nb) ≤ g'.currentLoad)) ?_ st.w.batteries 0 st st'
+            ⟨g, hg, rfl, rfl, le_refl _, by simp⟩ h
+        · obtain ⟨g', hg', h1, h2, h3, h4⟩ := key
+          refine ⟨g', hg', hrel.trans ⟨h1, h2, le_trans h3 (le_max_left _ _), by simp, fun _ => ?_⟩⟩
+          simp only [Nat.zero_add] at h4
+          have := hmul A hA0
+          have h5 : g.currentLoad - A ≤ g'.currentLoad := by linarith
+          rcases le_total (g.curMax + g.currentLoad) 0 with hle | hle
+          · rw [hA, max_eq_right hle] at h5; exact le_trans (min_le_left _ _) (by linarith)
+          · rw [hA, max_eq_left hle] at h5; exact le_trans (min_le_right _ _) (by linarith)
+        · intro k a b0 a' hp ha
+          obtain ⟨g1, hg1, e1, e2, e3, e4⟩ := hp
+          rw [theGc_single _ g1 hg1] at ha
+          simp only at ha
+          split at ha
+          · cases ha
+          · rename_i rl hl
+            simp only [Except.ok.injEq] at ha
+            subst ha
+            have hr : 0 ≤ rl.2 ∧ rl.2 ≤ A / nb := by
+              split at hl
+              · rw [liftM_ok] at hl
+                simp only [Except.ok.injEq] at hl
+                subst hl
+                exact ⟨le_refl _, hdiv0⟩
+              · rw [liftM_ok] at hl
+                obtain ⟨hu0, hup⟩ := law.unload_maxonly _ _ _ _ hl
+                exact ⟨hu0, le_trans hup (max_le (div_le_div_of_nonneg_right hneed hnb0) hdiv0)⟩
+            refine ⟨(g1.addLoad _ (-rl.2)).1, setGc_single' _ _ g1 _ _ hg1, by rw [addLoad_curMax, e1],
+              by rw [addLoad_id, e2], by rw [addLoad_load]; linarith [hr.1], ?_⟩
+            rw [addLoad_load]
+            push_cast
+            linarith [hr.2]
+
+theorem liftPy_ok {β : Type} (x : Py β) (v : β) : liftPy x = (.ok v : FPy β) ↔ x = .ok v := by
+  cases x <;> simp [liftPy]
+
+/-- **whole step, LOAD_STRAT ≠ balanced, code with the repairs FW1 … FW5:** the connector stays within
+`[min load (−limit), max load limit]` -/
+theorem step_ps_rel (ops : BatOps α B) (law : FwLaw ops) (env : FEnv α)
+    (hstrat : env.strat ≠ .balanced) (hdpb : DPBound ops env) (heps : 0 ≤ env.base.eps)
+    (w w' : SWorld α B) (window win' : Option Bool) (events : List (FEvent α))
+    (cmds : List (String × α)) (g : GcS α) (hg : w.gcs = [g]) (hM : 0 ≤ g.curMax)
+    (h : step ops env w window events = .ok (w', win', cmds)) :
+    ∃ g', w'.gcs = [g'] ∧ Rel false true g g' := by
+  unfold step at h
+  rw [theGc_single _ g hg] at h
+  simp only [bind, Except.bind] at h
+  split at h
+  · cases h
+  · split at h
+    · cases h
+    · rename_i t0 rest _
+      have hne : (env.strat == LoadStrat.balanced) = false := by simpa using hstrat
+      simp only [hne, Bool.false_eq_true, if_false] at h
+      have hinv0 : Inv (truthy t0.window) true g (⟨resetStations w, t0.window, t0 :: rest⟩ : FState α B) :=
+        ⟨⟨g, by simpa using hg, Rel.refl _ _ g⟩, rfl, by
+          intro t r ht
+          simp only [List.cons.injEq] at ht
+          rw [ht.1]⟩
+      split at h
+      · cases h
+      · rename_i r1 h1
+        obtain ⟨st1, c1⟩ := r1
+        have hinv1 := distributePeakShavingVehicles_inv ops law.toBatLaw env hdpb heps _ true g _ st1 c1 hM hinv0 h1
+        obtain ⟨⟨g1, hg1, hrel1⟩, _, hh1⟩ := hinv1
+        have hrel1' := hrel1.weaken
+        simp only at h
+        rw [theGc_single _ g1 hg1] at h
+        simp only at h
+        split at h
+        · cases h
+        · rename_i r2 h2
+          obtain ⟨st2, c2, lv⟩ := r2
+          have hinv2 : Inv2 true g st2 := by
+            split at h2
+            · split at h2
+              · cases h2
+              · rename_i r hs
+                rw [liftPy_ok] at hs
+                simp only [pure, Except.pure, Except.ok.injEq, Prod.mk.injEq] at h2
+                obtain ⟨rfl, _, _⟩ := h2
+                obtain ⟨g2, hg2, hrel2⟩ := distributeSurplus_rel ops law.toBatLaw env.base heps true st1.w r.1 r.2 g1 hg1
+                  (by rw [hrel1.1]; exact hM) hs
+                exact ⟨⟨g2, hg2, hrel1'.trans hrel2⟩, hh1⟩
+            · split at h2
+              · cases h2
+              · rename_i r hs
+                simp only [pure, Except.pure, Except.ok.injEq, Prod.mk.injEq] at h2
+                obtain ⟨rfl, _, _⟩ := h2
+                exact distributePeakShavingV2g_inv ops law.toBatLaw env true g st1 r.1 r.2
+                  ⟨⟨g1, hg1, hrel1'⟩, hh1⟩ hs
+          obtain ⟨⟨g2, hg2, hrel2⟩, hh2⟩ := hinv2
+          simp only at h
+          rw [theGc_single _ g2 hg2] at h
+          simp only at h
+          split at h
+          · cases h
+          · rename_i st3 h3
+            simp only [Except.ok.injEq, Prod.mk.injEq] at h
+            obtain ⟨rfl, _, _⟩ := h
+            split at h3
+            · split at h3
+              · cases h3
+              · rename_i w3 hs
+                simp only [pure, Except.pure, Except.ok.injEq] at h3
+                subst h3
+                obtain ⟨g3, hg3, hrel3⟩ := surplusToBatteries_rel ops law.toBatLaw env false true st2.w w3 g2 hg2
+                  (by rw [hrel2.1]; exact hM) hs
+                exact ⟨g3, hg3, hrel2.trans hrel3⟩
+            · exact distributePeakShavingBatteries_inv ops law env true g st2 st3 ⟨⟨g2, hg2, hrel2⟩, hh2⟩ h3
+
+theorem foldlM_measure_le {σ β ε : Type} (f : σ → β → Except ε σ) (Q : σ → Prop) (m : σ → α) (wt : β → α)
+    (hf : ∀ s x s', Q s → f s x = .ok s' → Q s' ∧ m s' ≤ m s + wt x) :
+    ∀ (l : List β) (s s' : σ), Q s → l.foldlM f s = .ok s' → Q s' ∧ m s' ≤ m s + (l.map wt).sum := by
+  intro l
+  induction l with
+  | nil =>
+    intro s s' hq h
+    simp only [List.foldlM_nil, pure, Except.pure, Except.ok.injEq] at h
+    subst h; exact ⟨hq, by simp⟩
+  | cons x xs ih =>
+    intro s s' hq h
+    simp only [List.foldlM_cons, bind, Except.bind] at h
+    split at h
+    · cases h
+    · rename_i s1 hs1
+      obtain ⟨hq1, hm1⟩ := hf s x s1 hq hs1
+      obtain ⟨hq', hm'⟩ := ih s1 s' hq1 h
+      refine ⟨hq', ?_⟩
+      rw [List.map_cons, List.sum_cons]; linarith
+
+theorem energyNeededFull_nonneg (ops : BatOps α B) (hcap : ∀ b, 0 ≤ ops.capacity b) (b : B) :
+    0 ≤ energyNeededFull ops b := by
+  unfold energyNeededFull
+  rw [pymax_eq]
+  exact mul_nonneg (le_max_right _ _) (hcap b)
+
+theorem sum_share {β : Type} (l : List β) (e : β → α) (c P : α) :
+    (l.map (fun v => e v / c * P)).sum = (l.map e).sum / c * P := by
+  induction l with
+  | nil => simp
+  | cons x xs ih => simp only [List.map_cons, List.sum_cons]; rw [ih]; ring
+
+/-- needy `distribute_power`: the shares `energy_i / Σ energy` add up to the budget (exact arithmetic,
+`sum` = the plain sum, capacities ≥ 0) -/
+theorem distributePower_needy_sum (ops : BatOps α B) (law : BatLaw ops) (env : FEnv α)
+    (hstrat : env.strat = .needy) (hsum : env.sum = List.sum) (hcap : ∀ b, 0 ≤ ops.capacity b)
+    (w : SWorld α B) (vs vs' : List (VehicleS α B)) (P : α)
+    (cmds : List (String × α))
+    (h : distributePower ops env w vs P (env.sum (vs.map (fun v => energyNeededFull ops v.bat))) = .ok (vs', cmds)) :
+    (∀ kv ∈ cmds, 0 ≤ kv.2) ∧ asum cmds ≤ max P 0 := by
+  unfold distributePower at h
+  split at h
+  · simp only [Except.ok.injEq, Prod.mk.injEq] at h
+    obtain ⟨_, rfl⟩ := h
+    exact ⟨by simp, by simp [asum]⟩
+  · rename_i hpos
+    simp only [not_or, not_le] at hpos
+    obtain ⟨hP, hN⟩ := hpos
+    set N := env.sum (vs.map (fun v => energyNeededFull ops v.bat)) with hNdef
+    simp only [bind, Except.bind] at h
+    split at h
+    · cases h
+    · rename_i r hr
+      simp only [Except.ok.injEq, Prod.mk.injEq] at h
+      obtain ⟨_, rfl⟩ := h
+      have key := foldlM_measure_le _
+          (fun (a : List (VehicleS α B) × List (String × α) × α) => (∀ kv ∈ a.2.1, 0 ≤ kv.2) ∧ a.2.2 = P)
+          (fun a => asum a.2.1) (fun (v : VehicleS α B) => energyNeededFull ops v.bat / N * P) ?_ vs ([], [], P) r
+          ⟨by simp, rfl⟩ hr
+      · obtain ⟨⟨hnn, _⟩, hle⟩ := key
+        refine ⟨hnn, le_trans hle (le_trans (le_of_eq ?_) (le_max_left _ _))⟩
+        simp only [asum, List.foldl_nil, zero_add]
+        rw [sum_share vs (fun v => energyNeededFull ops v.bat) N P, ← hsum, ← hNdef, div_self (ne_of_gt hN), one_mul]
+      · intro s x s' hp hs
+        obtain ⟨hnn, hP'⟩ := hp
+        simp only [hstrat] at hs
+        split at hs
+        · cases hs
+        · split at hs
+          · cases hs
+          · skip
+            split at hs
+            · cases hs
+            · rename_i rl hl
+              rw [liftM_ok] at hl
+              simp only [Except.ok.injEq] at hs
+              subst hs
+              obtain ⟨ha0, hap⟩ := law.load_max _ _ _ _ hl
+              have hb : (LoadStrat.needy == LoadStrat.greedy) = false := rfl
+              simp only [hb, Bool.false_eq_true, if_false]
+              have he := energyNeededFull_nonneg ops hcap x.bat
+              have hshare : 0 ≤ energyNeededFull ops x.bat / N * P :=
+                mul_nonneg (div_nonneg he hN.le) hP.le
+              refine ⟨⟨?_, hP'⟩, ?_⟩
+              · intro kv hkv
+                rcases mem_sdSet _ _ _ kv hkv with h1 | h1
+                · exact hnn kv h1
+                · rw [h1]; exact ha0
+              · refine le_trans (asum_sdSet_le _ _ _ hnn) (add_le_add_right ?_ _)
+                refine le_trans hap (max_le (le_trans (clampV_le _ _ _).2 (max_le hshare ?_)) hshare)
+                rw [if_pos hN, hP']
+
+theorem DPBound.needy (ops : BatOps α B) (law : BatLaw ops) (env : FEnv α) (hstrat : env.strat = .needy)
+    (hsum : env.sum = List.sum) (hcap : ∀ b, 0 ≤ ops.capacity b) : DPBound ops env :=
+  fun w vs vs' P cmds h => distributePower_needy_sum ops law env hstrat hsum hcap w vs vs' P cmds h
+
 /-! ### concrete instances for the non-vacuity examples and witnesses -/
 
 /-- an ideal 10 kWh battery for 1 h steps (state = SoC), used for the non-vacuity examples -/
